@@ -34,24 +34,23 @@ def c03(tier, seed, only=None):
     t0 = time.time()
     mons = [B + "Quiescence"]
     jobs = []
-    ctrl = dict(pause=1, resume=1, cancel=1, horizon=40)
-    for s in gen.f2_all(tier):
-        jobs.append(job(s, dict(ctrl), mons))
-        jobs.append(job(s, dict(rerun=1, rerun_mode="tasks", horizon=40), mons))
-    for s in gen.f4_all(tier) + gen.f5_all(tier):
-        jobs.append(job(s, dict(ctrl), mons))
-        jobs.append(job(s, dict(rerun=1, rerun_mode="tasks", horizon=40), mons))
-    dev = 2 if tier == "quick" else 3
+    fams = ("F2", "F4", "F5")
+    jobs += _ctrl_jobs(tier, mons, dict(pause=1, resume=1, cancel=1, horizon=60), families=fams)
+    jobs += _ctrl_jobs(tier, mons, dict(rerun=1, rerun_mode="tasks", horizon=60), families=fams)
+    if tier != "quick":
+        jobs += _ctrl_jobs(tier, mons, dict(hold=1, pause=1, resume=1, horizon=60, dev=4), families=fams)
     for s in gen.f3_all():
-        jobs.append(job(s, dict(pause=1, resume=1, cancel=1, dev=dev, horizon=120), mons))
+        dev = gen.f3_dev(s, tier)
+        jobs.append(job(s, dict(pause=1, resume=1, cancel=1, dev=dev, horizon=150), mons))
+        jobs.append(job(s, dict(rerun=1, dev=dev, horizon=150), mons))
     jobs = _filter(jobs, only)
     results = runner.run_jobs(jobs, seed=seed)
     rule = (
         "explicit-state BFS over provider moves (dispatch / complete x outcome / pause / resume / "
         "cancel / rerun) on the real conductor; F2,F4,F5: all interleavings with <=1 pause, "
-        "<=1 resume, <=1 cancel (both spellings) or <=1 rerun; F3 fixtures: deviation bound %d; "
-        "oracle evaluated at every quiescent point (nothing in flight, empty offer); a state is "
-        "distinct by canonical persisted state + aliasing + provider state" % dev
+        "<=1 resume (at rest), <=1 cancel (both spellings) or <=1 rerun (default and per-task); big shapes "
+        "and F3 fixtures deviation-bounded; oracle evaluated at every quiescent point (nothing in flight, "
+        "empty offer); a state is distinct by canonical persisted state + aliasing + provider state"
     )
     return runner.finish("C03", tier, seed, MC, results, rule, t0, mons)
 
